@@ -104,6 +104,59 @@ PINNED = (
 )
 
 
+def tool_history(ctx):
+    """a recording STARTED for step S1 and finished (from the renamed preliminary file) as step S2 is evidence recorded
+    for S1: whatever record stop writes, verification must not count it for S2.  -> (cases, problems)"""
+    import copy
+    import os
+    import shutil
+    import tempfile
+    import in_toto.runlib as rl
+    import in_toto.verifylib as vl
+    from in_toto.models.layout import Layout, Step
+    from in_toto.models.metadata import Envelope, Metablock
+    from harness import fstree
+    from harness.chain import quiet
+    k, owner = hk.sslib_key("ed25519", 0), hk.sslib_key("ed25519", 5)
+    problems, n = [], 0
+    for dsse in (False, True):
+        for how in ("rename", "copy"):
+            wd = tempfile.mkdtemp(prefix="c08hist", dir=ctx.work)
+            try:
+                with fstree.in_dir(wd), quiet():
+                    os.makedirs("src")
+                    open("src/a.c", "w").write("1")
+                    rl.in_toto_record_start("S1", ["src"], signer=k.signer, use_dsse=dsse)
+                    unf1, unf2 = ".S1.%s.link-unfinished" % k.keyid[:8], ".S2.%s.link-unfinished" % k.keyid[:8]
+                    (os.rename if how == "rename" else shutil.copy)(unf1, unf2)
+                    open("src/a.c", "w").write("2")
+                    try:
+                        rl.in_toto_record_stop("S2", ["src"], signer=k.signer)
+                        stop = "returned"
+                    except Exception as e:  # noqa
+                        stop = type(e).__name__
+                    if how == "copy":
+                        rl.in_toto_record_stop("S1", ["src"], signer=k.signer)
+                    else:
+                        rl.in_toto_run("S1", ["src"], ["src"], [], signer=k.signer, use_dsse=dsse)
+                    lay = Layout(steps=[Step(name="S1", pubkeys=[k.keyid]), Step(name="S2", pubkeys=[k.keyid])], inspect=[],
+                                 keys={k.keyid: copy.deepcopy(k.pub)}, expires="2035-01-01T00:00:00Z")
+                    md = Envelope.from_signable(lay) if dsse else Metablock(signed=lay)
+                    md.create_signature(owner.signer)
+                    try:
+                        vl.in_toto_verify(md, {owner.keyid: copy.deepcopy(owner.pub)}, link_dir_path=".")
+                        v = "accept"
+                    except Exception as e:  # noqa
+                        v = type(e).__name__
+                n += 1
+                if v == "accept":
+                    problems.append("%s/%s: a recording started for step S1 and finished as step S2 (record stop %s) is accepted as "
+                                    "evidence for S2" % ("dsse" if dsse else "metablock", how, stop))
+            finally:
+                shutil.rmtree(wd, ignore_errors=True)
+    return n, problems
+
+
 def run(ctx):
     n = 1500 if ctx.thorough() else 300
     core.check_props(ctx, PROPS)
@@ -115,6 +168,10 @@ def run(ctx):
     ]
     pinned, recs, model = vscen.run_all(ctx, opt_sets, n, pinned=PINNED)
     summary = vscen.check_expectations(ctx, pinned, vcore.replay_file)
+    th_n, th_bad = tool_history(ctx)
+    for pr in th_bad[:3]:
+        ctx.violation("step-name binding (recording tools): " + pr, {"tool_history": True, "what": pr})
+    summary["tool_history"] = {"cases": th_n, "violations": len(th_bad)}
     return vcore.report(ctx, "C08", pinned + recs, model, PROPS,
                         "verification core disagrees with the model (step-name binding)",
                         relevant=lambda r: any(t.startswith("link_replayed_name") for t in r["scen"]["tags"]),
@@ -126,4 +183,13 @@ def run(ctx):
 
 
 def replay(ctx, obj):
+    if obj.get("replay", {}).get("tool_history"):
+        _, bad = tool_history(ctx)
+        for pr in bad:
+            print("  -> " + pr)
+        if bad:
+            print("VIOLATION property=C08 replay=%s" % obj.get("rerun", "").split()[-1])
+            return 1
+        print("agree")
+        return 0
     return vscen.replay(ctx, "C08", obj)     # vcore.replay rewrites the inspection log path inside signed content
